@@ -136,6 +136,16 @@ def gen_cases(rng, tier):
         cases.append(dict(c1=s1, c2=s2, meta=meta))
     for c in cases:
         c["ops"] = ops_for(c["c1"], c["c2"])
+    # exact lattice placements (parallel faces, shared axes, symmetric overlaps: Johnson's sub-algorithm fails to classify the
+    # simplex and the backup procedure runs) - judged for gjk_distance_original only, to keep the cost low
+    for i in range(320 if tier == "quick" else 2500):
+        if i % 4 == 0:
+            s1, s2, meta = nb.lattice_box_pair(rng, overlap=rng.choice([True, False, False]))
+        else:
+            s1, s2, meta = nw.gen_pair(rng, tier, stream="lattice", margin_prob=0.05)
+        meta = dict(meta, stream="lattice_original")
+        cases.append(dict(c1=s1, c2=s2, meta=meta, orig_only=True,
+                          ops=[dict(fn="jolt_full", kw=NOCLIP), dict(fn="original_full"), dict(fn="original_iterations")]))
     return cases
 
 
@@ -261,7 +271,8 @@ def run(tier, seed, replay=None):
                 cases.append(c)
         cases += gen_cases(R.rng, tier)
     for c in cases:
-        c["ops"] = ops_for(c["c1"], c["c2"])
+        if not c.get("orig_only"):
+            c["ops"] = ops_for(c["c1"], c["c2"])
         c["meta"]["L"] = nw.scene_scale([c["c1"], c["c2"]])
     phase("proofs+generation")
     R.cov["jit_warmup"] = nb.warm(PID)
